@@ -118,24 +118,30 @@ theorem collect_get? (c : Cfg L K) (D : List (Item L)) (h : ∀ it ∈ D, it.okO
 
 /-! ### emplace over a rendered document -/
 
+theorem Cfg.lookup_of_not_tag (c : Cfg L K) (t : Tags L K) (l : L) (h : c.isTag l = false) :
+    c.lookup t l = none := by simp [Cfg.lookup, h]
+
+theorem Cfg.lookup_of_tag (c : Cfg L K) (t : Tags L K) (l : L) (h : c.isTag l = true) :
+    c.lookup t l = Tags.get? t (c.key l) := by simp [Cfg.lookup, h]
+
 theorem emplaceAux_body_none (c : Cfg L K) (t : Tags L K) (r : Bool) (b : List L)
-    (hb : ∀ x ∈ b, t.get? (c.key x) = none) (rest : List L) :
+    (hb : ∀ x ∈ b, c.lookup t x = none) (rest : List L) :
     emplaceAux c t r (b ++ rest) none = b ++ emplaceAux c t r rest none := by
   induction b with
   | nil => simp
   | cons x b ih =>
     have hx := hb x (by simp)
-    have hb' : ∀ y ∈ b, t.get? (c.key y) = none := fun y hy => hb y (by simp [hy])
+    have hb' : ∀ y ∈ b, c.lookup t y = none := fun y hy => hb y (by simp [hy])
     simp [emplaceAux, hx, ih hb']
 
 theorem emplaceAux_body_some (c : Cfg L K) (t : Tags L K) (b : List L)
-    (hb : ∀ x ∈ b, t.get? (c.key x) = none) (rest : List L) (tl : L) :
+    (hb : ∀ x ∈ b, c.lookup t x = none) (rest : List L) (tl : L) :
     emplaceAux c t false (b ++ rest) (some tl) = b ++ emplaceAux c t false rest (some tl) := by
   induction b with
   | nil => simp
   | cons x b ih =>
     have hx := hb x (by simp)
-    have hb' : ∀ y ∈ b, t.get? (c.key y) = none := fun y hy => hb y (by simp [hy])
+    have hb' : ∀ y ∈ b, c.lookup t y = none := fun y hy => hb y (by simp [hy])
     simp [emplaceAux, hx, ih hb']
 
 theorem emplaceAux_render (c : Cfg L K) (t : Tags L K) (D : List (Item L))
@@ -153,19 +159,23 @@ theorem emplaceAux_render (c : Cfg L K) (t : Tags L K) (D : List (Item L))
       simp [render, Item.render, Item.fill, emplaceAux, hit, ih hD]
     | block o cl b =>
       simp only [Item.okNew] at hit
-      obtain ⟨hk, hb⟩ := hit
+      obtain ⟨hto, htc, hk, hb⟩ := hit
+      have hlo := Cfg.lookup_of_tag c t o hto
+      have hlc := Cfg.lookup_of_tag c t cl htc
       simp only [render, Item.render, List.map_cons, List.cons_append, List.append_assoc]
-      cases hg : t.get? (c.key o) with
+      cases hg : Tags.get? t (c.key o) with
       | none =>
-        have hcl : t.get? (c.key cl) = none := by rw [hk]; exact hg
-        simp only [emplaceAux, hg, Item.fill]
+        have hcl : c.lookup t cl = none := by rw [hlc, hk]; exact hg
+        rw [hg] at hlo
+        simp only [emplaceAux, hlo, Item.fill, hg]
         rw [emplaceAux_body_none c t false b hb]
-        simp [emplaceAux, hcl, ih hD, Item.render]
+        simp [emplaceAux, hcl, ih hD]
       | some pb =>
-        have hcl : t.get? (c.key cl) = some pb := by rw [hk]; exact hg
-        simp only [emplaceAux, hg, Item.fill]
+        have hcl : c.lookup t cl = some pb := by rw [hlc, hk]; exact hg
+        rw [hg] at hlo
+        simp only [emplaceAux, hlo, Item.fill, hg]
         rw [emplaceAux_body_some c t b hb]
-        simp [emplaceAux, hcl, ih hD, Item.render]
+        simp [emplaceAux, hcl, ih hD]
 
 theorem emplace_render (c : Cfg L K) (t : Tags L K) (D : List (Item L))
     (h : ∀ it ∈ D, it.okNew c t) :
@@ -176,13 +186,13 @@ theorem emplace_render (c : Cfg L K) (t : Tags L K) (D : List (Item L))
 /-! ### used keys over a rendered document -/
 
 theorem usedAux_body (c : Cfg L K) (t : Tags L K) (b : List L)
-    (hb : ∀ x ∈ b, t.get? (c.key x) = none) (rest : List L) (st : Bool) :
+    (hb : ∀ x ∈ b, c.lookup t x = none) (rest : List L) (st : Bool) :
     usedAux c t (b ++ rest) st = usedAux c t rest st := by
   induction b with
   | nil => simp
   | cons x b ih =>
     have hx := hb x (by simp)
-    have hb' : ∀ y ∈ b, t.get? (c.key y) = none := fun y hy => hb y (by simp [hy])
+    have hb' : ∀ y ∈ b, c.lookup t y = none := fun y hy => hb y (by simp [hy])
     cases st <;> simp [usedAux, hx, ih hb']
 
 /-- the keys of the blocks of `D` that the table knows, in document order -/
@@ -204,18 +214,22 @@ theorem usedAux_render (c : Cfg L K) (t : Tags L K) (D : List (Item L))
       simp [render, Item.render, usedAux, hit, ih hD, knownBlockKeys, blocksOf]
     | block o cl b =>
       simp only [Item.okNew] at hit
-      obtain ⟨hk, hb⟩ := hit
+      obtain ⟨hto, htc, hk, hb⟩ := hit
+      have hlo := Cfg.lookup_of_tag c t o hto
+      have hlc := Cfg.lookup_of_tag c t cl htc
       simp only [knownBlockKeys] at ih
       simp only [render, Item.render, List.cons_append, List.append_assoc]
-      cases hg : t.get? (c.key o) with
+      cases hg : Tags.get? t (c.key o) with
       | none =>
-        have hcl : t.get? (c.key cl) = none := by rw [hk]; exact hg
-        simp only [usedAux, hg]
+        have hcl : c.lookup t cl = none := by rw [hlc, hk]; exact hg
+        rw [hg] at hlo
+        simp only [usedAux, hlo]
         rw [usedAux_body c t b hb]
         simp [usedAux, hcl, ih hD, knownBlockKeys, blocksOf, Tags.keys, hg]
       | some pb =>
-        have hcl : t.get? (c.key cl) = some pb := by rw [hk]; exact hg
-        simp only [usedAux, hg]
+        have hcl : c.lookup t cl = some pb := by rw [hlc, hk]; exact hg
+        rw [hg] at hlo
+        simp only [usedAux, hlo]
         rw [usedAux_body c t b hb]
         simp [usedAux, hcl, ih hD, knownBlockKeys, blocksOf, Tags.keys, hg]
 
